@@ -98,7 +98,18 @@ pub fn java_status() -> impl Strategy<Value = JavaStatus> {
             2 => Just(Sample::Absent),
             1 => Just(Sample::Null),
             1 => Just(Sample::List(vec![])),
-            4 => prop::collection::vec((text(ANY, 16), "[0-9a-f]{8}-[0-9a-f]{4}-[0-9a-f]{4}-[0-9a-f]{4}-[0-9a-f]{12}"), 1..13).prop_map(Sample::List),
+            4 => prop::collection::vec(
+                (
+                    text(ANY, 16),
+                    prop_oneof![
+                        14 => "[0-9a-f]{8}-[0-9a-f]{4}-[0-9a-f]{4}-[0-9a-f]{4}-[0-9a-f]{12}".prop_map(|s| s),
+                        // the id vanilla servers send for every player with hide-online-players, and other degenerate ids
+                        1 => Just("00000000-0000-0000-0000-000000000000".to_string()),
+                        1 => prop::sample::select(vec!["ffffffff-ffff-ffff-ffff-ffffffffffff", "", "00000000000000000000000000000000"]).prop_map(|s| s.to_string()),
+                    ],
+                ),
+                1..13
+            ).prop_map(Sample::List),
         ],
         prop_oneof![
             1 => Just(Description::Absent),
